@@ -342,6 +342,11 @@ func c19Block(r *Rng, depth int) string {
 				}
 				break
 			}
+			if r.Intn(5) == 0 { // a raw-text element inside pre: its text is written as it is (no character references are read there)
+				k := Pick(r, []string{"script", "style", "xmp"})
+				sb.WriteString("<pre" + c19Attrs(r) + ">" + Pick(r, []string{"", "intro\n"}) + "<" + k + ">if (a < b && c > d) { x = \"" + c02Word(r) + "\"; } /* &amp; &lt; */</" + k + ">" + Pick(r, []string{"", "\ntail"}) + "</pre>")
+				break
+			}
 			if r.Intn(3) == 0 { // elements nested in pre whose own text begins or ends with line breaks
 				k := Pick(r, []string{"code", "span", "b", "samp"})
 				sb.WriteString("<pre" + c19Attrs(r) + ">" + Pick(r, []string{"", "\n", "intro "}) + "<" + k + ">" + Pick(r, []string{"\n", "\n\n", "", " \n"}) + "first " + c02Word(r) + "\n  second &lt; x" + Pick(r, []string{"", "\n"}) + "</" + k + ">" + Pick(r, []string{"", "\n", "<i>\n\tz</i>"}) + "</pre>")
